@@ -33,6 +33,7 @@ def run(ctx, rep):
             g = x
     check_lookup(fx, rep, g, 'code_by_hash', 'cache.contracts', 'bundle_state.contracts', 'Database::code_by_hash', 'get(')
     check_conversion(fx, rep)
+    check_builder(fx, rep)
     c15.check_reads(fx, rep)
 
 
@@ -146,3 +147,78 @@ def check_conversion(fx, rep):
         rep.violation('R3-conversion', 'From<BundleAccount>', 'CacheAccount::from(BundleAccount): ' + sorted(set(problems))[0], f.where())
     else:
         rep.ok('R3-conversion', 'From<BundleAccount>', 'status copied, info mapped, present values')
+
+
+def check_builder(fx, rep):
+    """R4: StateBuilder::build hands the preloaded bundle to the State and switches it on.  Per
+    (cache prestate given?, bundle prestate given?): the cache is the given one, else
+    CacheState::new(with_state_clear) - also when a bundle is preloaded (a bundle of a pre-EIP-161
+    chain must not silently get state clearing); the bundle is the given one unless a cache prestate
+    takes precedence; use_preloaded_bundle is set exactly when the given bundle is used."""
+    from symx import Symx, Budget, render
+    f = fx.fns.get('revm::db::states::state_builder::StateBuilder::build')
+    if f is None:
+        rep.undecided('R4-builder', 'build', 'StateBuilder::build not found')
+        return
+    rep.fn(f)
+    try:
+        rs = Symx(fx, max_paths=500, snapshot_refs=True).run(f)
+    except Budget:
+        rep.undecided('R4-builder', 'build', 'path budget', f.where())
+        return
+    # the closure handed to unwrap_or_else builds CacheState::new(with_state_clear)
+    clos_ok = {}
+    for c in fx.closures_of(f.nq):
+        crs = Symx(fx, max_paths=50).run(c)
+        clos_ok[c.nq.split('::')[-1]] = all(render(r.ret).replace(' ', '').startswith('new(') and r.ret[1].endswith('CacheState::new') for r in crs) and bool(crs)
+    problems = []
+    combos = set()
+    for r in rs:
+        if not (r.ret[0] == 'agg' and r.ret[1].endswith('State')):
+            problems.append('a path does not build a State')
+            continue
+        fields = dict(zip(r.ret[3], r.ret[4]))
+        known = {}
+        for (sv, lit, _f, _b) in r.lits:
+            t = render(sv)
+            for nm in ('with_cache_prestate', 'with_bundle_prestate'):
+                if nm in t and (t.startswith('is_some(') or t.startswith('discr(')):
+                    some = (lit == ('eq', 1)) or (lit[0] == 'ne' and 0 in lit[1] and t.startswith('is_some('))
+                    if t.startswith('is_some('):
+                        some = lit != ('eq', 0)
+                    known[nm] = some
+        cache = render(fields.get('cache', ('sym', '?')))
+        bundle = render(fields.get('bundle_state', ('sym', '?')))
+        use = fields.get('use_preloaded_bundle')
+        for c_some in ([known['with_cache_prestate']] if 'with_cache_prestate' in known else [True, False]):
+            for b_some in ([known['with_bundle_prestate']] if 'with_bundle_prestate' in known else [True, False]):
+                combos.add((c_some, b_some))
+                # cache
+                generic = cache.startswith('unwrap_or_else(arg1.with_cache_prestate') and 'with_state_clear' in cache and any(ok and name in cache for name, ok in clos_ok.items())
+                if c_some:
+                    ok = generic or cache.startswith('arg1.with_cache_prestate@Some')
+                else:
+                    ok = generic or (cache.replace(' ', '').startswith('new(') and 'with_state_clear' in cache)
+                if not ok:
+                    problems.append('with cache prestate %s and bundle prestate %s the cache is %s; expected %s' % (
+                        'given' if c_some else 'absent', 'given' if b_some else 'absent', cache[:60], 'the given cache' if c_some else 'CacheState::new(with_state_clear)'))
+                # bundle + switch
+                want_use = (not c_some) and b_some
+                if use is not None and use[0] == 'k':
+                    got_use = bool(int(use[1]))
+                elif use is not None and render(use).startswith('is_some(&arg1.with_bundle_prestate') and not c_some:
+                    got_use = b_some
+                else:
+                    got_use = None
+                if got_use is not want_use:
+                    problems.append('use_preloaded_bundle is %s with cache prestate %s and bundle prestate %s' % (render(use)[:40] if use else '?', c_some, b_some))
+                if want_use and not (bundle.startswith('arg1.with_bundle_prestate@Some') or bundle.startswith('unwrap_or_default(arg1.with_bundle_prestate')):
+                    problems.append('the preloaded bundle is not the one given (%s)' % bundle[:60])
+                if c_some and b_some and not ('default(' in bundle or 'None' in bundle):
+                    problems.append('a cache prestate does not take precedence over the bundle prestate')
+    if len(combos) < 4:
+        problems.append('only %d of the 4 configuration cases recognised' % len(combos))
+    if problems:
+        rep.violation('R4-builder', 'build', 'StateBuilder::build: ' + sorted(set(problems))[0], f.where())
+    else:
+        rep.ok('R4-builder', 'build', 'cache / bundle / switch per (cache given, bundle given): 4 cases')
